@@ -6,7 +6,8 @@ so that oracles can compute the expected verdict without asking the parser.
 from common import *
 
 STRINGS = [b'"a"', b'"b c"', b'"x@y.z"', b'"\\"q\\""', b'"back\\\\slash"', b'"[br,ack]"', b'"\xc3\xa9t\xc3\xa9"', b'""', b'"INBOX"',
-           b'"multi\nline"', b'"#nocomment"', b'"/* no */"', b'"semi;colon"', b'"{brace}"']
+           b'"multi\nline"', b'"#nocomment"', b'"/* no */"', b'"semi;colon"', b'"{brace}"',
+           b'"end\\\\"', b'"\\\\\\"x"', b'"]"', b'","', b'"[\\"a\\",\\"b\\"]"', b'"\xe2\x82\xac\xf0\x9f\x98\x80"', b'" lead and trail "', b'"\r\n"', b'"text:\n.\n"']
 NUMBERS = [b"0", b"10", b"1K", b"2M", b"3g", b"100000"]
 MULTI = [b"text:\nhello\n.\n", b"text:\r\nhi $x\r\n.\r\n", b"text:\n.x\n.\n"]
 
